@@ -61,7 +61,7 @@ def special_shapes():
     ]
     return [norm_sh(s) for s in out]
 
-def good_family():
+def good_family(deep=False):
     """shapes INSIDE the classes the generator theorems cover (good_names / decodable / c15_class), built
     systematically: pairwise different leaf objects (different member TYPE lists, because type names hash the
     member types only) under every container nesting of depth <= 3, with optional flags below the root.
@@ -89,6 +89,28 @@ def good_family():
             other = leaves[(i + 3) % len(leaves)]
             out.append(('O', False, (('k', inner), ('m', wraps[(j + 5) % len(wraps)](other)))))   # two different nested items
             out.append(('A', False, ('O', False, (('p', inner),))))
+    # scale: tuples of width 11 / 12 (the widest std derives Debug / Clone for) below the root, wide objects,
+    # long member names, chains of nested objects / arrays deeper than any fixed budget one might introduce
+    # (65, 100, 127 levels; each level is a different shape, so all generated names differ)
+    kinds = [Nu, S, B]
+    for w in (11, 12):
+        t = ('T', False, tuple(kinds[i % 3] for i in range(w)))
+        out += [('O', False, (('t', t), ('u', ('T', False, (Nu, S, B))))), ('A', False, ('O', False, (('t', t),))),
+                ('O', False, (('t', ('T', True, t[2])),)), ('O', False, (('rows', ('A', False, t)),))]
+    for w in (33, 65, 257):
+        out.append(('O', False, tuple(("m%03d" % i, kinds[i % 3]) for i in range(w))))
+        out.append(('O', False, (('wide', ('O', False, tuple(("m%03d" % i, (kinds[i % 3][0], i % 2 == 1)) for i in range(w)))), ('n', Nu))))
+    for L in (31, 32, 33, 64, 255, 1000):
+        out.append(('O', False, (('k' * L, Nu), ('id', S))))
+    for d in ((16, 33) if not deep else (65, 100, 127)):
+        x = Nu
+        for i in range(d):
+            x = ('O', False, (('a', x),)) if i % 4 != 3 else ('A', False, ('O', False, (('a', x), ('b', S))))
+        out.append(x)
+        x = S
+        for i in range(d):
+            x = ('O', i % 5 == 2 and i > 0, (('a', x), ('n', Nu)))
+        out.append(('O', False, (('root', x),)))
     return [norm_sh(s) for s in out]
 
 SOURCE_SETS = [
@@ -104,6 +126,12 @@ SOURCE_SETS = [
     ['{"a":[1,"x"]}', '{"a":[2,"y"]}', '{"a":null}'], ['{"é":1}'], ['{"a":1}', '[1]'], ['[null,null]'],
     ['{"a":{"x":1}}', '{"a":{"y":2}}'], ['{"list":[{"id":1,"tags":["a"]},{"id":2,"tags":[]}]}'],
 ]
+# source files larger than any fixed buffer one might read them through (100 kB .. 1.5 MB): the tail of the file
+# carries shape information the head does not
+BIG_SOURCE_SETS = [['{"a":[' + ",".join(str(i) for i in range(20000)) + '],"z":"tail"}'],
+                   ['{"pad":"' + "x" * 70000 + '","z":{"k":true}}', '{"pad":"p","z":{"k":false},"w":[1,"s"]}'],
+                   ['[' + ",".join('{"id":%d,"name":"n%d"}' % (i, i) for i in range(60000)) + ',{"id":1,"extra":null}]'],
+                   [" " * 70000 + '{"a":1,"b":[1,2,3]}']]
 BAD_SOURCE_SETS = [[], ['{'], ['1', '{"a":'], ['nul'], ['{"a":1,"a":"x"}'], ['']]
 
 # ------------------------------------------------------------------ text <-> items
@@ -294,9 +322,9 @@ def parse_compile(res):
             d["det"] = x == "1"
         elif mode == "files":
             p, c = x.split(':')
-            d["files"][bytes.fromhex(p).decode()] = bytes.fromhex(c)
+            d["files"][bytes.fromhex(p).decode("utf-8", "surrogateescape")] = bytes.fromhex(c)
         elif mode == "prints":
-            d["prints"].append(bytes.fromhex(x).decode())
+            d["prints"].append(bytes.fromhex(x).decode("utf-8", "surrogateescape"))
     return d
 
 def real_header(ctx):
@@ -320,12 +348,12 @@ def parse_model_compile(res):
         d["ret"] = "ERR " + tok[2]; i = 3
     for x in tok[i:]:
         if x.startswith("P:"):
-            d["prints"].append(bytes.fromhex(x[2:]).decode())
+            d["prints"].append(bytes.fromhex(x[2:]).decode("utf-8", "surrogateescape"))
         elif x.startswith("R:"):
             d["reads"].append(bytes.fromhex(x[2:]).decode())
         elif x.startswith("W:"):
             _, p, c = x.split(':')
-            d["writes"].append((bytes.fromhex(p).decode(), bytes.fromhex(c)))
+            d["writes"].append((bytes.fromhex(p).decode("utf-8", "surrogateescape"), bytes.fromhex(c)))
         elif x in ("0", "1") and d["nowrite"] is None and tok[tok.index(x) - 1] == "NOWRITE":
             d["nowrite"] = x == "1"
     return d
@@ -452,11 +480,15 @@ def has_inner_opt_array(s, root=True):
         return any(has_inner_opt_array(v, False) for _, v in s[2])
     return False
 
-def gen_pool(ctx, n_rand, keys=None):
+def gen_pool(ctx, n_rand, keys=None, deep_chains=False):
     """(shape tuples, provenance): level-1, corner shapes, random deep shapes (mixed key pools),
     and shapes json_shape 0.5.1 infers from real source sets"""
     pool = [(s, "level1") for s in vlib.level1()] + [(s, "special") for s in special_shapes()]
     pool += [(s, "good-family") for s in good_family()]
+    if deep_chains:
+        # the model's decodable / decode are polynomial of high degree in the nesting depth: the deepest chains
+        # are only given to the check whose oracle stays cheap on them (C13: good_names + name resolution)
+        pool += [(s, "good-family-deep") for s in good_family(deep=True)[-6:]]
     pool += [(s, "random") for s in rand_shapes(ctx.rng, n_rand // 2, keys=keys or ASCII_KEYS)]
     pool += [(s, "random-ident") for s in rand_shapes(ctx.rng, n_rand // 2, keys=IDENT_KEYS)]
     sets = list(SOURCE_SETS) + doc_sources(ctx.rng, max(40, n_rand // 10))
